@@ -7,7 +7,7 @@ SRC="$(realpath "$1")"; ID="$2"; PROP="$3"; TIER="${4:-quick}"
 HERE="$(cd "$(dirname "${BASH_SOURCE[0]}")/.." && pwd)"
 WT="$(mktemp -d /tmp/sv-XXXXXX)"; rmdir "$WT"
 git -C /repo worktree add --detach "$WT" HEAD -q || exit 3
-cleanup() { git -C /repo worktree remove --force "$WT" 2>/dev/null; rm -rf "$WT"; }
+cleanup() { git -C /repo worktree remove --force "$WT" 2>/dev/null; rm -rf "$WT" "$WT.evidence"; }
 trap cleanup EXIT
 cd "$WT"
 P0=$(PYTHONDONTWRITEBYTECODE=1 PYTHONPATH="$WT/python" timeout 120 /venv/bin/python "$SRC/demo.py" >/dev/null 2>&1; echo $?)
@@ -15,7 +15,7 @@ git apply "$SRC/patch.diff" || { echo "SEEDED $ID: patch does not apply"; exit 3
 T=$(PYTHONDONTWRITEBYTECODE=1 timeout 600 /venv/bin/python -m pytest -q -p no:cacheprovider python 2>&1 | tail -1)
 P1=$(PYTHONDONTWRITEBYTECODE=1 PYTHONPATH="$WT/python" timeout 120 /venv/bin/python "$SRC/demo.py" >/dev/null 2>&1; echo $?)
 echo "SEEDED $ID: demo clean=$P0 mutant=$P1 tests: $T"
-OUT=$(cd "$HERE" && VERIF_REPO="$WT" ./check "$PROP" "$TIER" 2>&1); RC=$?
+OUT=$(cd "$HERE" && VERIF_EVIDENCE_DIR="$WT.evidence" VERIF_REPO="$WT" ./check "$PROP" "$TIER" 2>&1); RC=$?
 echo "$OUT" | grep -E "^VIOLATION|^  oracle=|^HARNESS|^NOTE|quick:|thorough:" | cut -c1-220 | head -8
 echo "SEEDED $ID: check exit $RC"
 mkdir -p "$HERE/seeded/$ID"
